@@ -246,6 +246,20 @@ fn alphabet() -> Vec<Stmt> {
             inner: &["u"],
             model: |_m| Exp::Ok(None),
         },
+        // an assignment expression inside a function body (not a do-block) may not rebind a
+        // visible outer name, and never binds anything at top level
+        Stmt {
+            src: "((x) => (a = x))(9)",
+            targets: &[],
+            inner: &[],
+            model: |m| if m.vars.contains_key("a") { Exp::Fail } else { Exp::Ok(Some(MV::Int(9))) },
+        },
+        Stmt {
+            src: "[4] via (x => [b = x, b])",
+            targets: &[],
+            inner: &[],
+            model: |m| if m.vars.contains_key("b") { Exp::Fail } else { Exp::Ok(None) },
+        },
         Stmt { src: "a = nope", targets: &["a"], inner: &[], model: |_m| Exp::Fail },
         Stmt {
             src: "b = (a = 1) + nope",
@@ -534,7 +548,7 @@ pub fn run(ctx: &Ctx, replay: Option<&J>) -> i32 {
     ctx.set("fixpoint_reached", json!(ctx.caps.lock().unwrap().is_empty()));
     ctx.set(
         "trusted_base",
-        json!(["reference model of the 37-statement alphabet in mc/src/c03.rs", "canonical state key (sorted bindings + outputs)"]),
+        json!(["reference model of the 39-statement alphabet in mc/src/c03.rs", "canonical state key (sorted bindings + outputs)"]),
     );
     ctx.assume("names and values outside the statement alphabet are not explored");
     // vacuity guards
